@@ -37,7 +37,7 @@ def census_diff():
 
 def check(ctx):
     # panic-site census of krill's own code, regenerated from /repo/src (theorem all_panic_sites_reviewed over it)
-    vlib.translate(ctx, [("panic_sites", "PanicSites.lean"), ("pure_fns:C16", "PureFns.lean")])
+    vlib.translate(ctx, [("panic_sites", "PanicSites.lean"), ("pure_fns:C16", "PureFnsC16.lean")])
     try:
         d = census_diff()
         if d:
